@@ -31,6 +31,9 @@ func isChunkPut(c *ssa.CallCommon) bool {
 }
 
 func c06(r *core.Run) {
+	// the retrieval-side validator itself: length window, hash comparison, hashing order
+	// (the BMT hasher ignores input past its capacity, so the window is part of validity)
+	cacRules(r, "C06.V-")
 	w := r.W
 	chunkSz := mustConst(r, "pkg/boson", "ChunkSize")
 	spanSz := mustConst(r, "pkg/boson", "SpanSize")
